@@ -1,4 +1,5 @@
 import PysnarkModel.Lemmas.OblGadgets
+import PysnarkModel.Lemmas.IteTag
 /-!
 # Obliviousness of the dynamically typed layer (`Model/Val.lean`, `Model/Methods.lean`)
 -/
@@ -242,6 +243,17 @@ theorem zipWithM'_obl {f1 f2 : Val → Val → M Val}
 theorem smallIntSame_eq {t1 t2 f1 f2 : Val} (ht : ValRel t1 t2) (hf : ValRel f1 f2) :
     smallIntSame t1 f1 = smallIntSame t2 f2 := by
   cases ht <;> cases hf <;> rfl
+
+/-- the retagging step: which arm is taken depends on the kinds only -/
+theorem iteTag_obl {t1 t2 f1 f2 r1 r2 : Val} (ht : ValRel t1 t2) (hf : ValRel f1 f2) (hr : ValRel r1 r2) :
+    Obl ValRel (iteTag t1 f1 r1) (iteTag t2 f2 r2) := by
+  cases ht
+  case lcb h1 =>
+    cases hf
+    case lcb h2 => cases hr <;> simp only [iteTag] <;> obl
+    all_goals (rw [iteTag_other _ rfl, iteTag_other _ rfl]; exact Obl.pure hr)
+  all_goals (rw [iteTag_other _ rfl, iteTag_other _ rfl]; exact Obl.pure hr)
+macro_rules | `(tactic| obl_rule) => `(tactic| with_reducible apply iteTag_obl)
 
 /-- any two fuels: the out-of-fuel arm raises, and both runs succeed -/
 theorem iteAux_obl {c1 c2 : LinComb} (hc : lcEq c1 c2) : ∀ (n1 n2 : Nat) {t1 t2 f1 f2 : Val},
